@@ -40,7 +40,7 @@ def setop_cases(draw):
     # decisive choices first (late draws are pinned to their first option for a share of Hypothesis's examples)
     op = draw(st.sampled_from(['union', 'intersection', 'difference']))
     rel = draw(st.sampled_from(['random', 'random', 'identical', 'permuted', 'disjoint', 'subset']))
-    as_container = draw(st.sampled_from(['index', 'index', 'array', 'list']))
+    as_container = draw(st.sampled_from(['index', 'index', 'array', 'list', 'index_obj']))  # (index_obj: the same labels held in an object-dtype Index)
     if kind == 'ih':
         n = draw(st.integers(1, 8))
         pool = draw(gen.tree_labels_n(n))
@@ -78,7 +78,10 @@ def check_setop(case):
         raise Discard('constructor rejected operand')
     op = case['op']
     others = idx[1:] if op != 'difference' else idx[1:2]
-    if case['as_container'] != 'index' and kind not in ('ih', 'tuple', 'mixed', 'date'):
+    if case['as_container'] == 'index_obj':
+        if kind in ('int', 'str', 'float'):
+            others = [sf.Index(list(o), dtype=object) for o in others]
+    elif case['as_container'] != 'index' and kind not in ('ih', 'tuple', 'mixed', 'date'):
         others = [(o.values if case['as_container'] == 'array' else list(o)) for o in others]
     r = lib(lambda: getattr(idx[0], op)(*others))
     if isinstance(r, Raised):
@@ -105,7 +108,7 @@ def check_setop(case):
         if any(eq(x, y) for y in got[:i]):
             raise Failure('duplicate', '%s result repeats %r: %s' % (op, x, short(got)))
     identical = all(len(s) == len(used[0]) and all(eq(a, b) for a, b in zip(s, used[0])) for s in used[1:])
-    if identical and op in ('union', 'intersection') and case['as_container'] == 'index':
+    if identical and op in ('union', 'intersection') and case['as_container'] in ('index', 'index_obj'):
         if not all(eq(a, b) for a, b in zip(got, used[0])):
             raise Failure('order', '%s of identical operands reordered: %s vs %s' % (op, short(got), short(used[0])))
     if op == 'difference' and False:
